@@ -362,6 +362,25 @@ func genStub(pkg LabPkg, code string) (string, error) {
 
 `, fw.strictFn, fw.strictArg)
 			siExpr = "NewStrictHandler(&StrictStub{T: t, O: o}, strictMws(t, o))"
+			if hasFuncDecl(p, "NewStrictHandlerWithOptions") && p.typeNames()["StrictHTTPServerOptions"] {
+				// the second constructor of the net/http flavours, with handlers that answer as the default ones do
+				sb.WriteString(`func strictSI(t *labrt.Trace, o labrt.Options) ServerInterface {
+	if o.StrictWithOptions {
+		return NewStrictHandlerWithOptions(&StrictStub{T: t, O: o}, strictMws(t, o), StrictHTTPServerOptions{
+			RequestErrorHandlerFunc: func(w http.ResponseWriter, r *http.Request, err error) {
+				http.Error(w, err.Error(), http.StatusBadRequest)
+			},
+			ResponseErrorHandlerFunc: func(w http.ResponseWriter, r *http.Request, err error) {
+				http.Error(w, err.Error(), http.StatusInternalServerError)
+			},
+		})
+	}
+	return NewStrictHandler(&StrictStub{T: t, O: o}, strictMws(t, o))
+}
+
+`)
+				siExpr = "strictSI(t, o)"
+			}
 		}
 		sb.WriteString(fw.mws)
 		sb.WriteString("\nfunc Mount(t *labrt.Trace, o labrt.Options) (http.Handler, error) {\n")
@@ -641,4 +660,14 @@ func (l *Lab) Run(scenarios []map[string]any) (map[string]*LabResult, error) {
 		res[r.ID] = &rr
 	}
 	return res, nil
+}
+
+// hasFuncDecl: the file declares a package-level function of that name.
+func hasFuncDecl(p *parsed, name string) bool {
+	for _, d := range p.file.Decls {
+		if fd, ok := d.(*ast.FuncDecl); ok && fd.Recv == nil && fd.Name.Name == name {
+			return true
+		}
+	}
+	return false
 }
